@@ -104,7 +104,19 @@ def build_world(root, spec):
             W.membranes.append(build.load_membrane(root, m["dir"]))
     W.curve_sets = []
     for ref in spec.get("curve_sets", []):
-        W.curve_sets.append(build.curve_set(W.membranes[ref[0]], ref[1]))
+        if isinstance(ref, dict):
+            src = W.curve_sets[ref["molar_copy_of"]]
+            curves = []
+            for c in src.diffusion_curves:
+                curves.append(DiffusionCurve(
+                    mixture=c.mixture, membrane_name=c.membrane_name, feed_temperature=c.feed_temperature,
+                    feed_compositions=[x.to_molar(c.mixture) for x in c.feed_compositions],
+                    partial_fluxes=None if c.partial_fluxes is None else list(c.partial_fluxes),
+                    permeate_temperature=c.permeate_temperature, permeate_pressure=c.permeate_pressure,
+                    permeances=None if c.permeances is None else list(c.permeances), comments="molar copy"))
+            W.curve_sets.append(DiffusionCurveSet(name=src.name + "_molar", diffusion_curves=curves))
+        else:
+            W.curve_sets.append(build.curve_set(W.membranes[ref[0]], ref[1]))
     W.curves = []
     for c in spec.get("curves", []):
         if "from_set" in c:
@@ -138,6 +150,16 @@ def build_world(root, spec):
 
 SNAP_POOLS = ["components", "mixtures", "compositions", "permeances", "perm_tuples", "programs", "conditions", "comp_lists",
               "membranes", "curve_sets", "curves", "measurements", "functions", "vle", "pvs"]
+
+
+def interpreter_state():
+    """Interpreter-global state a modelling call has no business changing (reported as a probe,
+    never as a violation by itself: the verdict needs a later call whose outcome differs)."""
+    import sys
+    import warnings
+    return {"numpy.geterr": dict(sorted(numpy.geterr().items())), "recursionlimit": sys.getrecursionlimit(), "cwd": os.getcwd(),
+            "environ": cdigest(sorted(os.environ.items())), "warnings.filters": len(warnings.filters),
+            "numpy.printoptions": cdigest(canon({k: v for k, v in numpy.get_printoptions().items() if k != "formatter"}))}
 
 
 def snapshot_trees(W):
@@ -179,6 +201,7 @@ class Executor:
         self.W = build_world(self.root, self.spec)
         self.snap0 = snapshot_trees(self.W)
         self.snap0_digests = {k: cdigest(v) for k, v in self.snap0.items()}
+        self.interp0 = interpreter_state()
         self.last = None
 
     def describe(self):
@@ -240,7 +263,9 @@ class Executor:
         for k in sorted(self.snap0_digests):
             if k not in cur:
                 changed.append({"item": k, "path": k, "before": "present", "after": "absent"})
-        return {"snapshot_changed": changed[:5]}
+        cur_i = interpreter_state()
+        drift = sorted(k for k in cur_i if cur_i[k] != self.interp0.get(k))
+        return {"snapshot_changed": changed[:5], "interpreter_state_changed": drift}
 
     def query(self, msg):
         return {"kind": "ok"}
